@@ -418,5 +418,5 @@ func c16Check(c *Ctx, cs c16Case) *Failure {
 
 func TestC16(t *testing.T) {
 	c := NewCtx(t, "C16")
-	RunRapid(c, t, Sub[c16Case]{Kind: "layering", Quick: 4000, Thorough: 150_000, Gen: genC16, Check: c16Check})
+	RunRapid(c, t, Sub[c16Case]{Kind: "layering", Quick: 15000, Thorough: 150_000, Gen: genC16, Check: c16Check})
 }
